@@ -186,6 +186,8 @@ class Scheduler:
                     # ingest ends.
                     self.provision_ingest += pipeline_demand
                     self._promised_ingest += pipeline_demand
+                    # ... and its whole data volume in the buffer
+                    self.buffer.admitted_observations.append(observation)
                 LOGGER.debug(
                     "Cluster is able to process ingest for observation %s",
                     observation.name)
